@@ -248,8 +248,8 @@ def get_facts(repo=None):
     """Return (dir with C.json, CXX.json, C11.json, probe.json, meta.json) for the current working tree of repo."""
     repo = repo or REPO
     key, nfiles = tree_hash(repo)
-    if repo != '/repo':
-        key = key + '-' + hashlib.sha256(repo.encode()).hexdigest()[:8]
+    # the key is the content of the tree only: scratch copies with the same content share one entry (locations are reported
+    # relative to the source root, see ir.rel)
     os.makedirs(CACHE, exist_ok=True)
     final = os.path.join(CACHE, key)
     if os.path.exists(os.path.join(final, 'meta.json')):
@@ -270,11 +270,11 @@ def get_facts(repo=None):
         if os.path.exists(final):
             shutil.rmtree(final)
         os.rename(tmp, final)
-        # keep the cache small: drop all but the 48 newest entries (about 8 MB each); entries of other trees that are being
+        # keep the cache small: drop all but the 240 newest entries (about 8 MB each); entries of other trees that are being
         # analysed concurrently (matrix runs over scratch copies) must survive until their checks are done
         ents = sorted((os.path.getmtime(os.path.join(CACHE, d)), d) for d in os.listdir(CACHE)
                       if os.path.isdir(os.path.join(CACHE, d)) and not d.startswith('tmp-'))
-        for _, d in ents[:-48]:
+        for _, d in ents[:-240]:
             shutil.rmtree(os.path.join(CACHE, d), ignore_errors=True)
         return final
     finally:
